@@ -1,4 +1,6 @@
 """C07 - sorting-based algorithms only emit safe schedules."""
+import contextlib
+import io
 import warnings
 
 import numpy as np
@@ -152,7 +154,7 @@ def prop(spec, rec):
     orig = np.random.normal
     np.random.normal = h.feed
     try:
-        with warnings.catch_warnings(record=True) as caught:
+        with warnings.catch_warnings(record=True) as caught, contextlib.redirect_stdout(io.StringIO()):
             warnings.simplefilter("always")
             h.sim.run()
     finally:
@@ -171,7 +173,7 @@ def prop(spec, rec):
         h2.scheduler.post = make_post(spec2, h2, stats2)
         np.random.normal = h2.feed
         try:
-            with warnings.catch_warnings(record=True) as caught2:
+            with warnings.catch_warnings(record=True) as caught2, contextlib.redirect_stdout(io.StringIO()):
                 warnings.simplefilter("always")
                 h2.sim.run()
         finally:
